@@ -140,7 +140,7 @@ theorem isEmpty_of_perm {α : Type} {l1 l2 : List α} (h : l1.Perm l2) : l1.isEm
 
 theorem ljStep_point {D : Dataset} {g : Graph} {μ0 μ1 : Row n} {B : List (Row n)} {XB : Row n → List (Row n)}
     {e : Expr} {own vs mustA mayA mustB mayB : List Nat}
-    (hb : ∀ c, (XB c).Perm (push c B)) (hfree : e.existsFree = true)
+    (hb : ∀ c, (XB c).Perm (push c B)) (hok : ExprOK D g n e)
     (hs1 : scopeOK e.vars own (mustA ++ mustB) (mayA ++ mayB) = true)
     (hs2 : scopeOK (mayB ++ e.vars) vs mustA mayA = true)
     (hba : BoundsOK μ1 mustA mayA) (hbb : ∀ μ ∈ B, BoundsOK μ mustB mayB) (hc : μ1.compat μ0 = true) :
@@ -166,7 +166,7 @@ theorem ljStep_point {D : Dataset} {g : Graph} {μ0 μ1 : Row n} {B : List (Row 
       | true =>
         have hfm : fm ((μ0.merge μ1).merge μ2) = fe (μ1.merge μ2) := by
           simp only [fm, fe, Row.merge_assoc]
-          rw [evalExprM_congr e hfree (forget_scope hs1 (hba.merge (hbb μ2 hμ2))), evalExprM_eq_spec e hfree]
+          rw [hok.congr _ _ (forget_scope hs1 (hba.merge (hbb μ2 hμ2))), hok.spec]
         simp only [Bool.and_self, if_true, Option.filter_some, hfm, Bool.true_and]
         cases hfe : fe (μ1.merge μ2) with
         | false => simp
@@ -205,8 +205,8 @@ theorem ljStep_point {D : Dataset} {g : Graph} {μ0 μ1 : Row n} {B : List (Row 
       have hcomp : μ2.compat (x.restrict vs) = μ1.compat μ2 := by
         rw [Row.compat_comm μ2, Row.compat_congr_right hdom]
       have hev : Model.evalExpr D g ((x.restrict vs).merge μ2) e = Spec.evalExpr D g Row.empty (μ1.merge μ2) e := by
-        rw [← evalExprM_eq_spec e hfree]
-        apply evalExprM_congr e hfree
+        rw [← hok.spec]
+        apply hok.congr
         intro v hv
         rw [Row.get_merge, Row.get_merge, hν v (List.mem_append.mpr (Or.inr hv))]
       rw [hcomp, hev]
@@ -272,7 +272,7 @@ theorem ljRow_ge {fe : Row n → Bool} {B : List (Row n)} {μ1 y : Row n} (hy : 
 /-- evalLeftJoin -/
 theorem pushdown_leftjoin {D : Dataset} {g : Graph} {μ0 : Row n} {A B XA : List (Row n)}
     {XB : Row n → List (Row n)} {e : Expr} {own vs mustA mayA mustB mayB : List Nat}
-    (ha : XA.Perm (push μ0 A)) (hb : ∀ c, (XB c).Perm (push c B)) (hfree : e.existsFree = true)
+    (ha : XA.Perm (push μ0 A)) (hb : ∀ c, (XB c).Perm (push c B)) (hok : ExprOK D g n e)
     (hs1 : scopeOK e.vars own (mustA ++ mustB) (mayA ++ mayB) = true)
     (hs2 : scopeOK (mayB ++ e.vars) vs mustA mayA = true)
     (hba : ∀ μ ∈ A, BoundsOK μ mustA mayA) (hbb : ∀ μ ∈ B, BoundsOK μ mustB mayB) :
@@ -291,7 +291,7 @@ theorem pushdown_leftjoin {D : Dataset} {g : Graph} {μ0 : Row n} {A B XA : List
   | true =>
     have hp : pushOne μ0 μ1 = some (μ0.merge μ1) := by simp [pushOne, hc]
     simp only [hp]
-    exact ljStep_point hb hfree hs1 hs2 (hba μ1 hμ1) hbb hc
+    exact ljStep_point hb hok hs1 hs2 (hba μ1 hμ1) hbb hc
   | false =>
     have hp : pushOne μ0 μ1 = none := by simp [pushOne, hc]
     simp only [hp]
